@@ -659,6 +659,9 @@ func (g *gen) specCall(e *env, n *ast.CallExpr) sval {
 		return sval{t: app("str.suffixof", arg(1).t, arg(0).t), gt: tBool, sort: "Bool"}
 	case "strings.Contains":
 		return sval{t: app("str.contains", arg(0).t, arg(1).t), gt: tBool, sort: "Bool"}
+	case "sbContent":
+		v := arg(0)
+		return sval{t: app("select", g.heapVar(e.st, sbHeap, sbSort), v.t), sort: "RSeq"}
 	case "errflag":
 		return sval{t: g.errFlag, gt: tBool, sort: "Bool"}
 	case "rangepos":
